@@ -43,6 +43,7 @@ import (
 //	kind-service-names:connect-enabled-row-stale-online      lost connect-enabled row, no connect instance of the service exists any more
 //	kind-service-names:row-stale-after-service-renamed       lost typical-kind row of a name no local instance carries any more
 //	peering-secret-uuids:active-secret-added-by-restore      added uuid is the ActiveSecretID of a stored peering-secrets row
+//	peering-secret-uuids:rows-lost:stale-uuid-no-secrets-row-names-it-online   lost uuid that no peering-secrets row of the original names
 //	checks:ServiceTags:stale-online-copy (also ServiceName)  restored value == the current service row's value
 //	case-folding:<table>                                      the differing values are equal ignoring letter case (or: a Count
 //	                                                          of usage "service-names" while two service names differ by case only)
@@ -391,6 +392,23 @@ func (c *cutCtx) lostRow(t string, f map[string]string, raw string, add func(sig
 		// leaves the old name's row behind (only deleteServiceTxn cleans up); restore has nothing to build it from
 		if f["Kind"] == "" && !c.hasInstanceNamed(svc) {
 			add("kind-service-names:row-stale-after-service-renamed", desc)
+			return
+		}
+	}
+	if t == "peering-secret-uuids" {
+		// A uuid tracked online that NO peering-secrets row of the original names (establishment, pending or active):
+		// a stale tracking row — peeringSecretsWriteTxn's dialer branch (Establish) overwrites the secrets row of the
+		// peering ID without freeing the uuids of the row it replaces — which restore cannot rebuild. A lost uuid that
+		// a secrets row still names (an accepting peer's active secret, say) keeps the generic signature.
+		id, named := unq(raw), false
+		for _, r := range c.a["peering-secrets"] {
+			sf := topFields(r)
+			if nested(sf["Establishment"], "SecretID") == id || nested(sf["Stream"], "PendingSecretID") == id || nested(sf["Stream"], "ActiveSecretID") == id {
+				named = true
+			}
+		}
+		if !named {
+			add("peering-secret-uuids:rows-lost:stale-uuid-no-secrets-row-names-it-online", desc)
 			return
 		}
 	}
